@@ -299,8 +299,11 @@ func c06Run(s *scenario, run int, derived uint64) {
 			break
 		}
 	}
-	if len(class.library) > 0 {
-		viols = append(viols, "library-panic:"+token(class.library[0], 160))
+	// (the recovered and logged "free called multiple times" of a handler that freed its own channel is
+	// the documented answer to that misuse; everything else the property promises still has to hold in
+	// such a run: the connection stays open, the siblings are served, the process lives)
+	if len(libFirst) > 0 {
+		viols = append(viols, "library-panic:"+token(libFirst[0], 160))
 	}
 	if closed {
 		viols = append(viols, "conn-closed")
